@@ -28,7 +28,7 @@ _HELP = _(
 def convert_dep5(obj: ClickObj) -> None:
     # pylint: disable=missing-function-docstring
     project = obj.project
-    if not (project.root / ".reuse/dep5").exists():
+    if not (project.root / ".reuse/dep5").is_file():
         raise click.UsageError(_("No '.reuse/dep5' file."))
 
     # Symbolic links are not followed: a linked REUSE.toml is not found as the
